@@ -54,6 +54,15 @@ namespace verif
             void* r = base + bump; bump += size; return r;
         }
 
+        std::size_t high_bump = 0;
+        void* place_high(std::size_t size, std::size_t align = 64)
+        {
+            init();
+            if (!high_bump) high_bump = region - (1 << 20);
+            high_bump = (high_bump + align - 1) & ~(align - 1);
+            void* r = base + high_bump; high_bump += size; return r;
+        }
+
         void* allocate(std::size_t size, std::size_t align)
         {
             init();
@@ -67,7 +76,7 @@ namespace verif
             }
             std::size_t al = align < 16 ? 16 : align;
             bump = (bump + gap + al - 1) & ~(al - 1);
-            if (bump + size > region) { std::fprintf(stderr, "upstream region exhausted\n"); std::exit(3); }
+            if (bump + size > region - (2 << 20)) { std::fprintf(stderr, "upstream region exhausted\n"); std::exit(3); }
             std::size_t o = bump; bump += size;
             blocks.push_back({o, size, align, true});
             ++total_alloc;
